@@ -124,7 +124,8 @@ func c06Cases(p c09Prog) []Case {
 		input["imports"] = p.Files
 	}
 	if res.Err != "" || len(res.Boards) == 0 {
-		c := Case{Class: p.Class + "/no-graph", Input: input, Impl: map[string]any{"error": res.Err}, Key: p.Text, ImplFail: res.Fail}
+		// a panic inside Compile is C09's business (reported there); C06 is about the boards that exist
+		c := Case{Class: p.Class + "/no-graph", Input: input, Impl: map[string]any{"error": res.Err, "panic": res.Fail}, Key: p.Text}
 		c.Coq = "CIds [] [] [] [] []"
 		return []Case{c}
 	}
